@@ -109,3 +109,50 @@ func VerifRun_C03a() {
 		verifViolation(c03class(&f, refOK, gotErr), "an invalid token sequence is reported clean")
 	}
 }
+
+// a2: the same token-level comparison with the K symbolic kinds placed inside a syntactic context (the
+// grammar's list constructs need more tokens than job a can afford around them): parameter lists, table
+// constructors, call arguments, for headers, local statements, if blocks, return lists, method definitions.
+var c03ctx = [][2][]lexer.TkKind{
+	{{lexer.TkKwFunction, lexer.TkIdentifier, lexer.TkSepLparen}, {lexer.TkSepRparen, lexer.TkKwEnd}},
+	{{lexer.TkIdentifier, lexer.TkOpAssign, lexer.TkSepLcurly}, {lexer.TkSepRcurly}},
+	{{lexer.TkIdentifier, lexer.TkSepLparen}, {lexer.TkSepRparen}},
+	{{lexer.TkKwFor}, {lexer.TkKwDo, lexer.TkKwEnd}},
+	{{lexer.TkKwLocal}, {}},
+	{{lexer.TkKwIf, lexer.TkIdentifier, lexer.TkKwThen}, {lexer.TkKwEnd}},
+	{{lexer.TkKwReturn}, {}},
+	{{lexer.TkKwFunction, lexer.TkIdentifier}, {lexer.TkSepLparen, lexer.TkSepRparen, lexer.TkKwEnd}},
+	{{lexer.TkIdentifier, lexer.TkOpAssign, lexer.TkKwFunction, lexer.TkSepLparen, lexer.TkIdentifier}, {lexer.TkSepRparen, lexer.TkKwEnd}},
+}
+
+func VerifRun_C03a2() {
+	k := verifParam("K")
+	ci := verifConcretize(verifRange("ctx", 0, len(c03ctx)-1))
+	toks := append([]lexer.TkKind{}, c03ctx[ci][0]...)
+	for i := 0; i < k; i++ {
+		toks = append(toks, lexer.TkKind(verifRange("k", 2, 59)))
+	}
+	toks = append(toks, c03ctx[ci][1]...)
+	lexer.VerifTokens = toks
+	lexer.VerifPos = 0
+	p := CreateParser([]byte{}, "x.lua")
+	_, _, errs := p.BeginAnalyze()
+	ref := make([]rxTok, len(toks))
+	for i := range toks {
+		ref[i] = rxTok{k: toks[i], attr: i > 0 && toks[i-1] == lexer.TkOpLt}
+	}
+	var f rxFeatures
+	refOK := rxParse(ref, &f)
+	gotErr := len(errs) > 0
+	if refOK {
+		verifReach("valid")
+	} else {
+		verifReach("invalid")
+	}
+	if refOK && gotErr {
+		verifViolation(c03class(&f, refOK, gotErr), "a valid token sequence is flagged with a syntax error")
+	}
+	if !refOK && !gotErr {
+		verifViolation(c03class(&f, refOK, gotErr), "an invalid token sequence is reported clean")
+	}
+}
